@@ -144,7 +144,8 @@ class C05(Prop):
                     for b in blocks:
                         if rng.random() < 0.7:
                             approved.append(list(b))
-                yield {"kind": "profile", "alts": alts, "approved": approved, "small": len(approved) <= 7}
+                yield {"kind": "profile", "alts": gen.perm(rng, alts) if rng.random() < 0.5 else alts,
+                       "approved": approved, "small": len(approved) <= 7}
             elif r < 0.7:
                 nr, nc = rng.randint(1, 6), rng.randint(1, 7)
                 dens = rng.choice([0.2, 0.4, 0.6])
